@@ -152,13 +152,48 @@ def fn18(s: str):
 	return Made(18, (s,))
 
 
-FACTORIES = [K0, K1, fn2, fn3, bm4, bm5, co6, co7, clo8, clo9, dup10, dup11, lam12, lam13, fn14, K15, fn16, fn17, fn18]
+# same simple name, different enclosing scope: nested in two classes, local to two functions. Used as symbols *and* factories.
+class Reader:
+	class Setting(Made):
+		def __init__(self):
+			Made.__init__(self, 19, ())
+
+
+class Writer:
+	class Setting(Made):
+		def __init__(self, a: Reader.Setting):
+			Made.__init__(self, 20, (a,))
+
+
+def mk_reader():
+	class Setting(Made):
+		def __init__(self):
+			Made.__init__(self, 21, ())
+	return Setting
+
+
+def mk_writer():
+	class Setting(Made):
+		def __init__(self, a: S0):
+			Made.__init__(self, 22, (a,))
+	return Setting
+
+
+LocalR = mk_reader()
+LocalW = mk_writer()
+NESTED = [Reader.Setting, Writer.Setting, LocalR, LocalW]
+
+FACTORIES = [K0, K1, fn2, fn3, bm4, bm5, co6, co7, clo8, clo9, dup10, dup11, lam12, lam13, fn14, K15, fn16, fn17, fn18,
+	Reader.Setting, Writer.Setting, LocalR, LocalW]
 BY_NAME = ['K0', 'K1', 'fn2', 'fn3', 'bm4', 'co6', 'clo8', 'clo9', 'dup10', 'dup11', 'lam12', 'fn14', 'K15', 'fn16', 'fn17']
 '''
 
 TY_STR = 100
 TY_INT = 101
 NSYM = 6
+NESTED_FROM = 500  # model: symbol ids >= 500 are classes nested in a class / function (path is not an import path)
+NESTED_SYMS = [500, 501, 502, 503]
+ALLSYMS = [*range(NSYM), *NESTED_SYMS]
 MAX_CONTS = 5
 # defects of the snapshot tree that were repaired in /repo; kept as regression detectors; key = finding key
 DEVIATIONS = [
@@ -194,10 +229,10 @@ class World:
 		sys.modules.pop(SCRATCH_NAME, None)
 		importlib.invalidate_caches()
 		self.mod = importlib.import_module(SCRATCH_NAME)
-		self.syms: list[type] = list(self.mod.SYMS)
+		self.syms: dict[int, type] = {**dict(enumerate(self.mod.SYMS)), **{NESTED_FROM + i: c for i, c in enumerate(self.mod.NESTED)}}
 		self.factories: list[Any] = list(self.mod.FACTORIES)
 		self.by_name: list[str] = list(self.mod.BY_NAME)
-		self.sym_index = {s: i for i, s in enumerate(self.syms)}
+		self.sym_index = {s: i for i, s in self.syms.items()}
 		self.sym_index[str] = TY_STR
 		self.sym_index[int] = TY_INT
 		# factory descriptors by introspection (inspect.signature, independent of di.py's __annotations__ plucking)
@@ -238,7 +273,7 @@ class World:
 		return s[self.syms[0]] if generic else s
 
 	def sym_path(self, k: int) -> str:
-		return f'{SCRATCH_NAME}.{self.syms[k].__name__}'
+		return f'{SCRATCH_NAME}.{self.syms[k].__qualname__}'
 
 	def reset(self) -> None:
 		self.mod.W['serial'] = 0
@@ -248,7 +283,7 @@ class World:
 			return f'x{xid}'
 		if ty == TY_INT:
 			return 1000 + xid
-		o = self.syms[ty]()
+		o = object.__new__(self.syms[ty])  # no __init__: the nested classes are factories too and would draw a serial
 		o.xid = xid
 		return o
 
@@ -451,6 +486,9 @@ class Reference:
 			if e is None:
 				raise RefError('ValueError')
 			if e.lazy:
+				if s[0] >= NESTED_FROM:
+					# the path of a nested class is not an import path: LazyDI cannot materialise its definition
+					raise RefError('Other:builtins.ModuleNotFoundError')
 				inj = e.inj
 				if inj[0] == 'n' and not isinstance(inj[2], int):
 					raise RefError('AttributeError' if inj[2] == 'attr' else 'Other:builtins.ModuleNotFoundError')
@@ -591,7 +629,7 @@ def gen_case(w: World, rng: random.Random, max_ops: int, search: bool) -> list[t
 	ref = Reference(w, IDEAL)
 	ops: list[tuple] = []
 	fids = list(range(len(w.factories)))
-	alias_groups = [[8, 9], [10, 11], [12, 13], [4, 5]]
+	alias_groups = [[8, 9], [10, 11], [12, 13], [4, 5], [19, 20], [21, 22]]
 	xid = [0]
 	profile = rng.choice(['mixed', 'mixed', 'invoke', 'combine', 'lazy'])
 
@@ -600,19 +638,19 @@ def gen_case(w: World, rng: random.Random, max_ops: int, search: bool) -> list[t
 		ref.step(op)
 
 	def rsym(c: int | None = None, want_bound: bool | None = None) -> tuple[int, bool]:
-		k = rng.randrange(NSYM)
+		k = rng.choice(NESTED_SYMS) if rng.random() < 0.3 else rng.randrange(NSYM)
 		if c is not None and want_bound is not None and rng.random() < 0.75:
 			ents = ref.conts[c].ents
-			pool = [s for s in range(NSYM) if (s in ents) == want_bound]
+			pool = [s for s in ALLSYMS if (s in ents) == want_bound]
 			if pool:
 				k = rng.choice(pool)
-		return (k, k >= 4 and rng.random() < 0.6)
+		return (k, k in (4, 5) and rng.random() < 0.6)
 
 	def rfid_for(c: int, s: int) -> int:
 		"""mostly a factory whose annotated parameters do not lead back to `s` directly (fewer immediate cycles)"""
 		for _ in range(6):
 			fid = rfid()
-			if rng.random() < 0.2 or all(p is not None and p[0] != s and p[0] < NSYM for p in w.desc[fid][1]):
+			if rng.random() < 0.2 or all(p is not None and p[0] != s and p[0] in ALLSYMS for p in w.desc[fid][1]):
 				return fid
 		return fid
 
@@ -632,7 +670,7 @@ def gen_case(w: World, rng: random.Random, max_ops: int, search: bool) -> list[t
 
 	def new_cont() -> None:
 		if rng.random() < (0.7 if profile == 'lazy' else 0.45):
-			syms = rng.sample(range(NSYM), rng.randint(0, 4))
+			syms = rng.sample(ALLSYMS if rng.random() < 0.3 else range(NSYM), rng.randint(0, 4))
 			emit(('new', 'lazy', [(s, rinj()) for s in syms]))
 		else:
 			emit(('new', 'di'))
@@ -696,11 +734,11 @@ def gen_case(w: World, rng: random.Random, max_ops: int, search: bool) -> list[t
 			if rng.random() < 0.5:
 				new_cont()
 			return
-		emit(('new', 'lazy', [(s, rinj()) for s in rng.sample(range(NSYM), rng.randint(0, 3))]) if lazy else ('new', 'di'))
+		emit(('new', 'lazy', [(s, rinj()) for s in rng.sample(ALLSYMS if rng.random() < 0.25 else range(NSYM), rng.randint(0, 3))]) if lazy else ('new', 'di'))
 		if kind == 'invoke-combine-invoke':
 			fid = rng.choice([1, 2, 3, 4, 8, 9, 10, 11, 16, 17, 18])
 			for p in w.desc[fid][1]:
-				if p is not None and p[0] < NSYM and rng.random() < 0.6:
+				if p is not None and p[0] in ALLSYMS and rng.random() < 0.6:
 					emit(('bind', 0, p, rng.choice([0, 15, 12])))
 			emit(('invoke', 0, fid, valid_args(0, fid)))
 			emit(('new', 'lazy', [(rng.randrange(NSYM), rinj())]) if lazy else ('new', 'di'))
@@ -737,7 +775,8 @@ def gen_case(w: World, rng: random.Random, max_ops: int, search: bool) -> list[t
 		elif kind == 'production-shape':
 			# providers/app.py + providers/syntax/entrypoints.py in miniature: a shared container, then per "module": pre-resolve in the
 			# shared one, a fresh container of definitions, combine, rebind two symbols, bind one, resolve; shared resolves interleaved
-			pre = rng.sample(range(NSYM), 2)
+			universe = ALLSYMS if rng.random() < 0.5 else list(range(NSYM))
+			pre = rng.sample(universe, 2)
 			for p in pre:
 				if p not in ref.conts[0].ents:
 					emit(('bind', 0, (p, False), rng.choice([0, 15, 12])))
@@ -746,8 +785,8 @@ def gen_case(w: World, rng: random.Random, max_ops: int, search: bool) -> list[t
 					break
 				for p in pre:
 					if rng.random() < 0.85:
-						emit(('resolve', 0, (p, p >= 4 and rng.random() < 0.5)))
-				local = [x for x in range(NSYM) if x not in pre]
+						emit(('resolve', 0, (p, p in (4, 5) and rng.random() < 0.5)))
+				local = [x for x in universe if x not in pre]
 				emit(('new', 'lazy', [(x, rinj()) for x in rng.sample(local, rng.randint(1, 3))]))
 				d = len(ref.conts) - 1
 				emit(('combine', 0, d))
@@ -864,7 +903,7 @@ def stream_di(ctx: Ctx, w: World) -> Stream:
 		if isinstance(d.get('case'), dict):
 			d['case'] = {'kind': d['case'].get('kind'), 'ops_json': [op_to_json(o) for o in d['case']['ops']]}
 	st.histogram = {**st.histogram, **{f'out:{k}': v for k, v in sorted(hist_out.items())}}
-	st.note = (f'op sequences (<= {max_ops} ops) over 6 symbol classes (2 generic), {len(w.factories)} factories (classes, functions, bound methods, '
+	st.note = (f'op sequences (<= {max_ops} ops) over 6 module-level symbol classes (2 generic) + 4 same-named nested / function-local classes (Reader.Setting, Writer.Setting, two local Setting; also used as factories), {len(w.factories)} factories (classes, functions, bound methods, '
 		'callable objects with/without __qualname__, closures and redefinitions sharing a qualified name, two bound methods of one function, lambdas, unannotated parameters), '
 		'by-name definitions through a scratch module (incl. missing attribute / missing module), <= 5 containers; '
 		'observations: creation serial + factory + argument identities of resolved/invoked instances, can_resolve, exception enum')
@@ -1417,7 +1456,7 @@ def run(ctx: Ctx) -> int:
 			'correspondence_only': 'dictionaries are copied not shared by _clone/combine (the Lean model has value semantics, so aliasing is excluded by construction and tied by the stream, which keeps using all operands after combine); Python-level details of what a factory object exposes (__annotations__ of __to_annotated(factory), hash/equality of that callable, arity)',
 		},
 		assumptions=[
-			'symbol classes are importable module-level classes with pairwise different full names (so LazyDI\'s path keys and DI\'s class keys are in bijection)',
+			'symbol classes have pairwise different full names __module__ + __qualname__ (so LazyDI\'s path keys and DI\'s class keys are in bijection); module-level classes are importable by that path, nested / function-local classes (model ids >= 500) are not: a LazyDI definition of such a class is visible but resolve raises ModuleNotFoundError (modelled)',
 			'factories take positional parameters without defaults and do not touch containers themselves; remaining arguments are direct instances of the expected class or not (no subclass relations)',
 			'generation numbers of the Spec are expressed as trace properties (no bind/rebind/unbind of the symbol in between) instead of a counter in the state',
 		],
